@@ -105,6 +105,12 @@ package socketace
 //@   requires conn != nil
 //@   modifies conn.*
 //@   ensures err == nil ==> result1 != nil                                       :headers_or_error
+// the announce / status line and the headers are read by ONE MIME reader over the handed buffered connection: the
+// first line is read whole whatever its length (textproto joins the pieces), so the outcome depends on the bytes
+// received and not on the buffer size
+//@   callsite textproto.NewReader#1 (arg0 *bufio.Reader) require arg0 == conn                                                        :the_mime_reader_reads_the_handed_connection
+//@   callsite textproto.Reader).ReadLine#1 (arg0 *textproto.Reader, headerReader *textproto.Reader) require arg0 == headerReader       :first_line_read_whole_by_the_mime_reader
+//@   callsite textproto.Reader).ReadMIMEHeader#1 (arg0 *textproto.Reader, headerReader *textproto.Reader) require arg0 == headerReader :headers_read_by_the_same_reader
 
 //@ func (sar *Request) String
 //@   property C06
